@@ -19,6 +19,10 @@ int        vw_script_len = 0;
 int        vw_script_pos = 0;
 int        vw_src_fd = -1, vw_dst_fd = -1;
 long       vw_b1 = 0, vw_b2 = 0;
+int        vw_ino_collide = 0;
+static int   vw_first_fd  = -1;
+static ino_t vw_first_ino;
+static dev_t vw_first_dev;
 char       vw_log[VW_LOG_SIZE];
 size_t     vw_log_len = 0;
 int        vw_first_cfr_errno = -1;
@@ -33,6 +37,8 @@ vw_reset(void)
   vw_script_len = vw_script_pos = 0;
   vw_src_fd = vw_dst_fd = -1;
   vw_b1 = vw_b2 = 0;
+  vw_ino_collide = 0;
+  vw_first_fd    = -1;
   vw_log_len = 0;
   vw_log[0] = 0;
   vw_first_cfr_errno = -1;
@@ -158,6 +164,17 @@ do_fstat(int lfs, int fd, struct stat* sb)
     const long b = which ? vw_b2 : vw_b1;
     if (b != VW_KEEP_BLKSIZE) {
       sb->st_blksize = (blksize_t)b;
+    }
+    if (vw_ino_collide) {
+      // two files on two file systems may carry the same inode number: only (st_dev, st_ino) identifies a file
+      if (vw_first_fd < 0) {
+        vw_first_fd  = fd;
+        vw_first_ino = sb->st_ino;
+        vw_first_dev = sb->st_dev;
+      } else if (fd != vw_first_fd) {
+        sb->st_ino = vw_first_ino;
+        sb->st_dev = vw_first_dev + 1U;
+      }
     }
   }
   vw_logf("fstat", which, r);
